@@ -150,6 +150,59 @@ def history_lines(rng, tier):
     return lines
 
 
+def page_history_lines(rng, tier):
+    """HISTORIES OF PAGES through one carquet_page_writer (page_writer.c allocates "exactly bound" for the codec and
+    serves all pages of a column chunk): growing / shrinking, incompressible / compressible bodies, all four codecs,
+    INT32 and BYTE_ARRAY PLAIN pages; sizes relative to the previous page: same, smaller, previous + a little,
+    exactly the codec's bound for the previous page and just below it."""
+    lines = []
+    nh = 10 if tier == "quick" else 80
+    seed = rng.randrange(1 << 30)
+    for codec in ("snappy", "lz4", "gzip", "zstd"):
+        for h in range(nh):
+            typ = "i32" if rng.random() < 0.7 else "ba"
+            n0 = rng.choice([24000, 100, 1000, 4096, 60000, rng.randrange(8, 30000)])
+            steps = [f"r{n0}"]
+            for _ in range(rng.randrange(5, 14)):
+                r = rng.random()
+                kind = rng.choice("rrrrtz")
+                if r < 0.30:
+                    steps.append(f"r{rng.choice(['b', 'b-4', 'b-8', 'b-' + str(rng.randrange(0, 40))])}")   # grows to the bound of the previous page
+                elif r < 0.45:
+                    steps.append(f"r{rng.choice(['p+4', 'p+8', 'p+' + str(rng.randrange(1, 200))])}")
+                elif r < 0.60:
+                    steps.append(f"{kind}p")                                   # same size
+                elif r < 0.80:
+                    steps.append(f"{kind}{rng.choice(['p-4', 'p-' + str(rng.randrange(1, 5000)), str(rng.randrange(0, 2000))])}")   # shrinks
+                else:
+                    steps.append(f"{kind}{rng.randrange(0, 70000)}")
+            lines.append(f"pages {codec} {typ} {seed + h} " + ",".join(steps))
+        # the scripted history of the bug class: equal, smaller, then each page as large as the bound of the previous one
+        lines.append(f"pages {codec} i32 {seed} r24000,r24000,r12000,rb,rb,rb,rb,t1000,rb,rp+4")
+    return lines
+
+
+def judge_pages(line, out):
+    t = line.split()
+    codec = t[1]
+    steps = t[-1].split(",")
+    res = out.split()
+    if len(res) != len(steps):
+        return [f"page writer with {codec}: crash / malformed driver output in a page history: {out[:200]}"]
+    bad = []
+    for j, (st, r) in enumerate(zip(steps, res)):
+        f = r.split(":")
+        ctx = f"page {j} `{st}` of a page history through one page writer (previous pages: {', '.join(steps[max(0, j - 3):j])})"
+        if f[0] == "ERR":
+            bad.append(f"page writer with {codec}: finalize fails with status {f[1]} although it gives the codec a destination of its own bound: {ctx}")
+        elif f[0] == "SIZES":
+            bad.append(f"page writer with {codec}: inconsistent sizes {r}: {ctx}")
+        elif f[0] == "OK" and (f[3] != "1" or f[4] != "1"):
+            bad.append(f"page writer with {codec}: the compressed page body ({f[2]} bytes) does not decompress into exactly {f[1]} bytes to the page's values "
+                       f"(carquet rt={f[3]}, system library={f[4]}): {ctx}")
+    return bad
+
+
 def judge_hist(line, out):
     """Property oracle for a history: every compress step with cap >= bound must succeed; every success must report
     at most cap bytes and be decoded to its input by carquet and by the system library; damaged data must not
@@ -224,6 +277,7 @@ def run(tier):
                        "(16-bit table position aliasing), 200 KB of zeros; destination capacities bound-1, bound, bound+1 and far below; "
                        "EVERY capacity 0..bound+1 for eleven small inputs (random 100 / 1000, period 40, literal runs 14/15/16/270, runs, empty, tiny) per codec; "
                        "gzip levels 1-9 and zstd levels 1-22 plus out-of-range levels x sizes 0 .. 300 KB (thorough 2 MiB) x the three capacities; "
+                       "page histories through one carquet_page_writer for all four codecs (INT32 / BYTE_ARRAY PLAIN; same, smaller, previous+k, exactly bound(previous) and just below; random / text / zero bodies), each body decompressed into exactly uncompressed_size bytes by carquet and the system library; "
                        "call histories on one thread for all four codecs (short destination then bound-sized, levels and inputs interleaved, truncated-data decompress in between), every success verified by the system library; "
                        "non-trivial = non-empty input; distinct by case text")
     try:
@@ -243,7 +297,7 @@ def run(tier):
     for l in sw:
         labels[l] = "capacity-sweep"
     lines += sw
-    hist = history_lines(rng, tier)
+    hist = history_lines(rng, tier) + page_history_lines(rng, tier)
     ext = gen_ext_lines(rng, tier)
     allc = lines + ext
     impl, deaths = CL.run_all(vlib, drv, allc, timeout=2400, max_deaths=40)
@@ -254,7 +308,7 @@ def run(tier):
         if out == "FAULT died":
             continue
         rep.count(line[:4000])
-        for b in judge_hist(line, out):
+        for b in (judge_pages if line.startswith("pages ") else judge_hist)(line, out):
             rep.violation(b, {"case": line if len(line) < 600000 else line[:600000], "impl": out[:300]})
         nh_ok += 1
     for case, rc, summ in deaths:
@@ -296,7 +350,8 @@ def run(tier):
             rep.tie_broken(f"bound formula of the model differs from carquet_{'snappy' if o == 'sbound' else 'lz4'}_compress_bound({n}) = {b}: model {mo}", f"{o} {n}")
     rep.cov["input_distribution"] = dist
     rep.cov["capacity_sweep_cases"] = len(sw)
-    rep.cov["call_histories"] = len(hist)
+    rep.cov["call_histories"] = len([l for l in hist if l.startswith("hist ")])
+    rep.cov["page_writer_histories"] = len([l for l in hist if l.startswith("pages ")])
     rep.cov["bound_formula_points_compared"] = len(bl)
     rep.sample({"case": lines[25][:200]})
     rep.sample({"case": ext[10][:200]})
@@ -319,7 +374,7 @@ def replay(path):
         print(CL.san_summary(err))
     if rc != 0 or not out:
         return 1
-    bad = judge_hist(case, out[0]) if case.startswith("hist ") else judge(case, out[0])[0]
+    bad = judge_hist(case, out[0]) if case.startswith("hist ") else judge_pages(case, out[0]) if case.startswith("pages ") else judge(case, out[0])[0]
     for b in bad:
         print("FAILS:", b)
     return 1 if bad else 0
